@@ -14,6 +14,7 @@ THEOREMS = [
     'Pfst.C04.putSrc_flat', 'Pfst.C04.putSrc_delete', 'Pfst.C04.putSrc_normal', 'Pfst.C04.putSrc_lines_same',
     'Pfst.C04.shiftCol_eq', 'Pfst.C04.getSrc_before', 'Pfst.C04.getSrc_after', 'Pfst.C04.getSrc_container',
     'Pfst.C04.off_arith', 'Pfst.C04.c2b_bridge', 'Pfst.C04.dcol_bytes',
+    'Pfst.C04.effective_call', 'Pfst.C04.options_block', 'Pfst.C04.set_options_effective', 'Pfst.C04.trivia_depends_on_effective',
     'Pfst.C04.placed_text', 'Pfst.C04.placed_bytes', 'Pfst.C04.placed_chars_false', 'Pfst.Text.off_putSrc_placed',
     'Pfst.C04.lead_in_bounds_partial', 'Pfst.C04.lead_only_trivia_partial', 'Pfst.C04.lead_none_spec',
     'Pfst.C04.lead_block_spec', 'Pfst.C04.trail_scan_partial',
@@ -36,7 +37,11 @@ RULE = ('correspondence: (a) FST._put_src on a real root, exhaustively over smal
         'backslash / ascii art; injected multi-line str / bytes / f-string literals at every block depth; put code with '
         'multi-line literals; insertions into elif chains that re-indent the chain, judged by tokens; two-step histories: an '
         'expression is replaced by a call and then args[0] of the NEW call is replaced, ~70% with multi-byte text before the target on '
-        'its line, judged by byte-identical text outside the element and by tree == fresh parse after each step), judged with tokenize and '
+        'its line, judged by byte-identical text outside the element and by tree == fresh parse after each step; accessor '
+        'histories: reads of .loc/.bloc/.src of every ancestor, then put_line_comment (longer / shorter / None / full) / put_docstr / '
+        'par / unpar on a nested statement, then cut / remove / replace of an enclosing statement on the same live tree; option '
+        'channels: deterministic product of replace / remove / insert / slice delete / cut / copy x trivia, pep8space, docstr, elif_, '
+        'pars values, each per call, in FST.options() and after FST.set_options(): equal outcomes), judged with tokenize and '
         'line comparison only. distinct = distinct inputs; non-trivial = output differs from input')
 TRUSTED = [
     'modelled: fst_core._put_src (5 cases, source part) and _get_src, _params_offset on characters and bytes (bistr.c2b); '
@@ -275,9 +280,65 @@ def _corr_place(ctx):
         ctx.brk('correspondence', name, f'{bad}/{n} differ; first: ' + str(first)[:1200])
 
 
+def _corr_options(ctx):
+    """option resolution: random sequences of set_options / with-options enter / exit, then get_option with or without a per
+    call value, vs Pfst.Trivia.OptState / effective"""
+    import json
+    from fst import FST
+    rng = random.Random(ctx.rng.random())
+    vals = [True, False, 'all', 'block+1', ['none', 'all'], [False, False], 3, []]
+    name = 'get_option/set_options/options() vs Pfst.Trivia.effective'
+    cases, impls = [], []
+    dflt = FST.get_option('trivia')
+    for _ in range(150 if ctx.quick else 1500):
+        ops = []
+        depth = 0
+        for _ in range(rng.randint(0, 6)):
+            k = rng.choice(['set', 'enter', 'enter', 'exit'])
+            if k == 'exit' and depth == 0:
+                k = 'enter'
+            if k == 'exit':
+                depth -= 1
+                ops.append(['exit'])
+            else:
+                depth += k == 'enter'
+                ops.append([k, rng.choice(vals)])
+        call = rng.choice([None, None] + vals)
+        has_call = rng.random() < 0.5
+        case = {'f': 'C04.opt_resolve', 'dflt': dflt, 'ops': ops}
+        if has_call:
+            case['call'] = call
+        # real
+        tup = lambda v: tuple(v) if isinstance(v, list) else v
+        untup = lambda v: list(v) if isinstance(v, tuple) else v
+        stack = []
+        saved0 = FST.get_option('trivia')
+        try:
+            for o in ops:
+                if o[0] == 'set':
+                    FST.set_options(trivia=tup(o[1]))
+                elif o[0] == 'enter':
+                    cm = FST.options(trivia=tup(o[1]))
+                    cm.__enter__()
+                    stack.append(cm)
+                else:
+                    stack.pop().__exit__(None, None, None)
+            eff = FST.get_option('trivia', {'trivia': tup(call)} if has_call else {})
+            cur = FST.get_option('trivia')
+            d = len(stack)
+        finally:
+            while stack:
+                stack.pop().__exit__(None, None, None)
+            FST.set_options(trivia=saved0)
+        cases.append(case)
+        impls.append({'effective': json.dumps(untup(eff), separators=(',', ':')), 'cur': json.dumps(untup(cur), separators=(',', ':')), 'depth': d})
+    _diff(ctx, name, cases, impls)
+
+
 def correspondence(ctx):
     _corr_put_src(ctx)
     _corr_place(ctx)
+    _corr_options(ctx)
     _corr_trivia(ctx)
     _corr_params(ctx)
 
@@ -299,6 +360,10 @@ def _run_sweep(ctx, progs, per):
     res = pmap(co.edit_cases, [(p, ctx.rng.randrange(1 << 30), per) for p in progs])
     # two-step histories (replace an expression by a call, then edit a child of the new node), multi-byte text before the target
     res += pmap(co.two_step_cases, [(p, ctx.rng.randrange(1 << 30), max(3, per // 2)) for p in progs])
+    # histories with trivia-changing accessors between cache-filling reads and structural edits of the enclosing blocks
+    res += pmap(co.history_cases, [(p, ctx.rng.randrange(1 << 30), max(2, per // 4)) for p in progs[:len(progs) * 2 // 3] + co.HAND_PROGRAMS])
+    # every trivia-related option through all three channels (per call / FST.options() / FST.set_options()): same outcome
+    res += pmap(co.channel_cases, [(p, ctx.rng.randrange(1 << 30), 1 if ctx.quick else 2) for p in progs[:len(progs) // 2] + co.HAND_PROGRAMS])
     n = 0
     for lst in res:
         for it in lst:
@@ -350,6 +415,7 @@ def replay(ctx, data):
             if '\n'.join(impl['lines']) != flat[:o1] + '\n'.join(w['put'] or ['']) + flat[o2:]:
                 ctx.fail('replay', '_put_src result is not the flat-text splice', w)
         return
-    it = co.run_two_step(w['src'], w['edit']) if w['edit'].get('op') == 'replace2' else co.run_edit(w['src'], w['edit'])
+    op = w['edit'].get('op')
+    it = (co.run_two_step if op == 'replace2' else co.run_history if op == 'history' else co.run_channels if op == 'channels' else co.run_edit)(w['src'], w['edit'])
     for sig, what, wit in co.classify(it):
         ctx.fail(sig, what, w)
